@@ -13,7 +13,7 @@ class C18Kernel(KernelProp):
     n_ops = (12, 45)
     weights = {"new": 12, "cancelget": 2, "enter": 12, "exit": 5, "add": 22, "addf": 12, "getnw": 16, "get": 10, "finish": 4,
                "getall": 2, "addtd": 4, "current": 0, "parent": 0, "spawn": 2, "state": 0, "inject": 3}
-    gen_kwargs = {"max_ctx": 8, "malformed": 0.12, "wrong_state": 0.06, "exc_end": 0.2, "p_comp": 0.25}
+    gen_kwargs = {"max_ctx": 8, "malformed": 0.12, "wrong_state": 0.06, "exc_end": 0.2, "p_comp": 0.25, "body_get": True}
     rule = ("a listener stream on every context from its creation (parents, children, siblings at the same time), "
             "drained after every operation; histories of successful and failing adds / factory registrations, first "
             "generations through every API, repeated lookups, publications from teardown callback bodies. Non-trivial: "
